@@ -4,23 +4,35 @@
    Full statement wanted: forall follow w cwd ts r inc exc,
      analyzed_code w cwd ts r inc exc = Some l -> l lists exactly analyzed_spec follow w cwd ts r inc exc
    (links are not part of the tree unless follow_symlinks = true, then they stand for what they point to).  It is FALSE of
-   the code in three ways (the _refuted theorems); on trees without links it reduces to the C18 theorems of Props/C18.v. *)
+   the code in two ways (the _refuted theorems: links to files and to directories; [analysis] follow_symlinks is not read
+   by the file reader).  It holds on trees whose only links are dangling ones (C18_links_dangling_partial; before the
+   repair of finding C18-G3 one such link made every analysis fail), where it reduces to the C18 theorems of Props/C18.v. *)
 From Coq Require Import NArith List Bool.
 From PV Require Import Gen.FileSelConst Cli.Glob Cli.FileSel Cli.FileSelLinks Cli.FileSelLinksProofs.
 Import ListNotations.
 Open Scope N_scope.
 
 Theorem C18_links_spec_without_links_is_C18_spec : forall follow w cwd ts r inc exc, no_links w = true ->
-  analyzed_spec follow w cwd ts r inc exc = spec_list (code_view w) cwd ts r inc exc.
+  analyzed_spec follow w cwd ts r inc exc = spec_list (code_world w) cwd ts r inc exc.
 Proof. exact analyzed_spec_no_links. Qed.
 Print Assumptions C18_links_spec_without_links_is_C18_spec.
 
-Theorem C18_links_code_without_links_is_C18_model : forall w cwd ts r inc exc, no_links w = true ->
+Theorem C18_links_code_without_links_is_C18_model : forall w cwd ts r inc exc,
   analyzed_code w cwd ts r inc exc =
   option_map (fun ps => filter (readable_at w) (map (fun p => segs (abs cwd p)) ps))
-             (collect_python_files (code_view w) cwd ts r inc exc).
-Proof. exact analyzed_code_no_links. Qed.
+             (collect_python_files (code_world w) cwd ts r inc exc).
+Proof. exact analyzed_code_collects. Qed.
 Print Assumptions C18_links_code_without_links_is_C18_model.
+
+(* dangling links: the tree the code walks and the tree the property talks about are the same one (the links are in
+   neither), for both values of follow_symlinks: code and specification are those of Props/C18.v on that tree *)
+Theorem C18_links_dangling_partial : forall follow w cwd ts r inc exc, only_dangling_links w = true ->
+  analyzed_spec follow w cwd ts r inc exc = spec_list (code_world w) cwd ts r inc exc /\
+  analyzed_code w cwd ts r inc exc =
+  option_map (fun ps => filter (readable_at w) (map (fun p => segs (abs cwd p)) ps))
+             (collect_python_files (code_world w) cwd ts r inc exc).
+Proof. exact (fun follow w cwd ts r inc exc H => conj (analyzed_spec_only_dangling follow w cwd ts r inc exc H) (analyzed_code_collects w cwd ts r inc exc)). Qed.
+Print Assumptions C18_links_dangling_partial.
 
 (* a link to a file is analysed as a file of its own although follow_symlinks is false *)
 Theorem C18_links_file_link_refuted :
@@ -36,9 +48,17 @@ Theorem C18_links_dir_link_refuted :
 Proof. exact dir_link_never_followed. Qed.
 Print Assumptions C18_links_dir_link_refuted.
 
-(* one dangling link with a Python name: `pyscn analyze` analyses no file at all *)
-Theorem C18_links_dangling_refuted :
-  analyzed_code w_dangling [n_p] [mkpath false []] true inc_all [] = None /\
-  (forall follow, analyzed_spec follow w_dangling [n_p] [mkpath false []] true inc_all [] = [[n_p; n_a]]).
-Proof. exact dangling_link_hides_every_file. Qed.
-Print Assumptions C18_links_dangling_refuted.
+(* one dangling link with a Python name next to a.py: a.py is analysed, which is what the property asks for (was
+   C18_links_dangling_refuted: no file was analysed at all) *)
+Theorem C18_links_dangling_skipped :
+  forall follow, analyzed_code w_dangling [n_p] [mkpath false []] true inc_all [] =
+                 Some (analyzed_spec follow w_dangling [n_p] [mkpath false []] true inc_all []) /\
+                 analyzed_spec follow w_dangling [n_p] [mkpath false []] true inc_all [] = [[n_p; n_a]].
+Proof. exact dangling_link_skipped. Qed.
+Print Assumptions C18_links_dangling_skipped.
+
+(* naming the dangling link as a target is an error *)
+Theorem C18_links_dangling_target_fails :
+  analyzed_code w_dangling [n_p] [mkpath false [n_l]] true inc_all [] = None.
+Proof. exact dangling_link_as_target_fails. Qed.
+Print Assumptions C18_links_dangling_target_fails.
